@@ -275,12 +275,16 @@ FACTORS = [
     ("eval", ["vec", "scalar", "blobs", "poolobj_blobs"]),
     ("boundary", ["none", "per0", "ref1", "per0ref1"]),
     ("prior", ["affine", "nonlinear"]),
-    ("target", ["gauss", "bimodal"]),
+    ("target", ["gauss", "bimodal", "unequal"]),
+    ("cluster_every", [1, 3]),
+    ("n_steps", [None, 3]),
+    ("n_particles", [24, 12]),
 ]
 
 
 def cfg_of(row):
-    c = {k: row[k] for k in ("sample", "resample", "vv", "eval", "boundary", "prior", "target")}
+    c = {k: row[k] for k in ("sample", "resample", "vv", "eval", "boundary", "prior", "target", "cluster_every", "n_steps", "n_particles")}
+    c["n_total"] = 4 * row["n_particles"]
     clu = row["clu"]
     c["clustering"] = clu != "off"
     c["normalize"] = clu != "on-nonorm"
@@ -304,7 +308,7 @@ def plan(ctx):
     rows = lattice.covering_array(FACTORS, strength=3 if th else 2, seed=ctx.seed)
     cov, tot = lattice.count_covered(rows, FACTORS, 3 if th else 2)
     ctx.bounds.update({"configs": len(rows), "covering_strength": 3 if th else 2, "tuples_covered": f"{cov}/{tot}", "max_deviations": 2 if th else 1,
-                       "tape_alphabet": ["a", "b"], "n_particles": 24, "n_total": 96, "d": 2})
+                       "tape_alphabet": ["a", "b"], "n_particles": [24, 12], "d": 2})
     if cov != tot:
         ctx.cap(f"covering array covers {cov}/{tot} tuples")
     cases = [{"kind": "pipe", "cfg": cfg_of(r), "base": ctx.seed, "max_dev": 2 if th else 1, "max_runs": 80 if th else 14} for r in rows]
